@@ -609,9 +609,9 @@ var Defects = map[string]func(c *Case){
 	"crealm-mismatch":                       func(c *Case) { c.ACRealm = "EVIL.ORG" },
 	// names and realms are case-sensitive octet strings: the same word in another letter case is another principal / realm
 	"crealm-other-case":       func(c *Case) { c.ACRealm = strings.ToLower(c.CRealm) },
-	"crealm-other-case-first": func(c *Case) { c.ACRealm = strings.ToLower(c.CRealm[:1]) + c.CRealm[1:] },
+	"crealm-other-case-first": func(c *Case) { c.ACRealm = swapCaseFirst(c.CRealm) },
 	"crealm-trailing-dot":     func(c *Case) { c.ACRealm = c.CRealm + "." },
-	"cname-other-case":        func(c *Case) { c.ACName = strings.ToUpper(c.CName[:1]) + c.CName[1:] },
+	"cname-other-case":        func(c *Case) { c.ACName = swapCaseFirst(c.CName) },
 	"cname-upper-case":        func(c *Case) { c.ACName = strings.ToUpper(c.CName) },
 	"crealm-foreign":          func(c *Case) { c.CRealm = "PARTNER.NET"; c.ACRealm = "PARTNER.NET" },
 	"auth-usage-wrong": func(c *Case) {
@@ -648,6 +648,19 @@ var Defects = map[string]func(c *Case){
 	"session-etype-second": func(c *Case) { c.SessEType = AbsentEType(c.TktEType) },
 	"subkey-seq":           func(c *Case) { c.SubKey = true; c.Seq = true },
 	"replay":               func(c *Case) { c.Replay = true },
+}
+
+// swapCaseFirst changes the case of the first letter of s (s itself when it has none).
+func swapCaseFirst(s string) string {
+	for i, r := range s {
+		switch {
+		case r >= 'a' && r <= 'z':
+			return s[:i] + string(r-32) + s[i+1:]
+		case r >= 'A' && r <= 'Z':
+			return s[:i] + string(r+32) + s[i+1:]
+		}
+	}
+	return s
 }
 
 func pacIfNone(c *Case) {
